@@ -89,12 +89,20 @@ const (
 	saHandshakeIdle = 1 * time.Second
 )
 
+const saNumAddrs = 8
+
+// addresses 0..3: four IPv4 hosts; 4: host 0 on another port; 5, 6: two IPv6 hosts; 7: host 5 on another port.
+// Tokens are bound to the IP address (not the port), in every address family.
 func saAddr(id int) *net.UDPAddr {
-	ip := id
-	if id == 4 {
-		ip = 0 // same host as address 0, another port: tokens are bound to the IP only
+	switch id {
+	case 4:
+		return &net.UDPAddr{IP: net.IPv4(10, 0, 0, 1), Port: 4000 + id}
+	case 5, 7:
+		return &net.UDPAddr{IP: net.ParseIP("2001:db8::5"), Port: 4000 + id}
+	case 6:
+		return &net.UDPAddr{IP: net.ParseIP("2001:db8:bad::666"), Port: 4000 + id}
 	}
-	return &net.UDPAddr{IP: net.IPv4(10, 0, 0, byte(ip+1)), Port: 4000 + id}
+	return &net.UDPAddr{IP: net.IPv4(10, 0, 0, byte(id+1)), Port: 4000 + id}
 }
 
 func (c *saCtx) fail(key, desc string) { c.fails = append(c.fails, monFail{key, desc}) }
@@ -497,11 +505,12 @@ func runOneServerAccept(w *bufio.Writer, r *u.Rng, idx int, dist map[string]int)
 	c.disable = r.Chance(1, 6)
 	c.early = r.Bool()
 	vmode := r.Intn(3) // 0 no callback, 1 all, 2 some
-	for a := 0; a < 5; a++ {
+	for a := 0; a < saNumAddrs; a++ {
 		c.verify[a] = vmode == 1 || (vmode == 2 && r.Bool())
 		c.refuse[a] = r.Chance(1, 12)
 	}
 	c.verify[4] = c.verify[0] // same host
+	c.verify[7] = c.verify[5]
 	for i := 0; i < 4; i++ {
 		c.dcids = append(c.dcids, r.Bytes(r.Range(8, 14)))
 		c.scids = append(c.scids, r.Bytes(r.Range(0, 8)))
@@ -524,7 +533,7 @@ func runOneServerAccept(w *bufio.Writer, r *u.Rng, idx int, dist map[string]int)
 		time.Sleep(time.Millisecond)
 		nOps := r.Range(6, 18)
 		for i := 0; i < nOps; i++ {
-			addr := r.Intn(5)
+			addr := r.Intn(saNumAddrs)
 			switch k := r.Intn(100); {
 			case k < 40:
 				size := []int{1200, 1200, 1250, 1199, 600}[r.Intn(5)]
@@ -570,7 +579,7 @@ func runOneServerAccept(w *bufio.Writer, r *u.Rng, idx int, dist map[string]int)
 		c.fail("sa/leak-or-panic", err.Error())
 	}
 	var va, ra []string
-	for a := 0; a < 5; a++ {
+	for a := 0; a < saNumAddrs; a++ {
 		if c.verify[a] && vmode != 0 {
 			va = append(va, u.Z(int64(a)))
 		}
